@@ -77,6 +77,7 @@ type c08gen struct {
 	inLoop  int
 	extends bool
 	usesInc bool
+	failing bool // one leaf of the program ends the execution with an error
 	// forced nesting for the enumerated part: kinds[depth]
 	forced []int
 	cont   int
@@ -88,6 +89,18 @@ func (g *c08gen) leafNodes() []gen.Node {
 	r := g.r
 	var out []gen.Node
 	n := 1 + r.Intn(2)
+	if len(g.forced) == 0 && r.Intn(10) == 0 {
+		// nothing but white space: a captured separator or line break is a value like any other
+		g.seq++
+		return []gen.Node{tx([]string{" ", "\n", "\t\t", " \r\n ", "  "}[r.Intn(5)])}
+	}
+	if len(g.forced) == 0 && !g.failing && r.Intn(40) == 0 {
+		// the execution ends here with an error: what the open captures, sections and calls have collected up to
+		// this point is dropped, none of it may show up in the main output
+		g.failing = true
+		g.seq++
+		return []gen.Node{tx(g.mark()), pr(&gen.ECall{Fn: "nofunc"}), tx(g.mark())}
+	}
 	for i := 0; i < n; i++ {
 		if len(g.forced) == 0 && r.Intn(12) == 0 {
 			// another template rendered right here, which captures on its own account: its captures must
